@@ -15,3 +15,14 @@ func (pairs IndividualNodePairs) Has(findPair *IndividualNodePair) bool {
 
 	return false
 }
+
+// hasInOrder is like Has but does not consider the reversed pair.
+func (pairs IndividualNodePairs) hasInOrder(findPair *IndividualNodePair) bool {
+	for _, pair := range pairs {
+		if pair.Left.Is(findPair.Left) && pair.Right.Is(findPair.Right) {
+			return true
+		}
+	}
+
+	return false
+}
